@@ -151,6 +151,13 @@ def generate(rng: random.Random, tier: str) -> dict:
             nx = rng.choice(SIDES[:12])
     axis = rng.choice(["YX", "YX", "YXS", "SYX", "SYX"])
     ns = 0 if axis == "YX" else rng.choice([1, 2, 3, 4, 5])
+    big = rng.random() < 0.05
+    if big:
+        # many tiles per side: 2^levels exceeds the tile size, so padding adds whole tiles
+        ny, nx = rng.choice([257, 272, 300, 513, 64, 100]), rng.choice([257, 272, 300, 513, 16, 100])
+        if ny * nx > 160000:
+            nx = rng.choice([16, 100, 257])
+        ns = min(ns, 2)
     dtype, comp, pred = rng.choice(CODEC_DOMAIN["ok"])
     kind = np.dtype(dtype).kind
     nodata: Any = rng.choice([None, None, 0, 7, 200 if dtype != "int8" else -100, "nan"])
@@ -170,8 +177,12 @@ def generate(rng: random.Random, tier: str) -> dict:
         blocksize = [[rng.choice(blocks[:6]), rng.choice(blocks[:6])], rng.choice(blocks[:4])]
     else:
         blocksize = "unset"
+    if big:
+        blocksize = rng.choice([[16], [32, 16], 16, [20], [48, 16]])
     cs = [8, 16, 20, 32, 64, 200]
     chy, chx = rng.choice(cs), rng.choice(cs)
+    if big:
+        chy, chx = rng.choice([64, 128, 200, 600]), rng.choice([64, 128, 200, 600])
     band_chunk = rng.choice(["one", "all"])
     sink = rng.choice(["file"] * 5 + ["s3"] * 2 + ["s3-cluster"] * 2)
     place = rng.choice(["default", "default", "base-exists", "base-nested", "xdev"]) if sink == "file" else None
@@ -313,6 +324,7 @@ def execute(record: dict, rng: Optional[random.Random]) -> Outcome:
         "sink_cross_device": 0,
         "s3_multiple_parts": 0,
         "multi_worker": 0,
+        "padding_adds_whole_tiles": 0,
         "rgb_like_3_or_4_samples": 0,
         "syx_width_3_or_4": 0,
         "concurrent_writer_calls": 0,
@@ -322,7 +334,8 @@ def execute(record: dict, rng: Optional[random.Random]) -> Outcome:
     data = make_pixels(ny, nx, ns, axis, dtype)
     aff, crs = _gbox_params(cfg["crs"], ny, nx)
     nodata = float("nan") if cfg["nodata"] == "nan" else cfg["nodata"]
-    OD.uuid4 = _seeded_uuid(cfg["uuid_seed"])
+    if hasattr(OD, "uuid4"):
+        OD.uuid4 = _seeded_uuid(cfg["uuid_seed"])
     tmp = Path(tempfile.mkdtemp(prefix=f"odcsim-c05-{os.getpid()}-", dir="/dev/shm"))
     cleanup = [tmp]
     sink = cfg["sink"]
@@ -362,7 +375,7 @@ def execute(record: dict, rng: Optional[random.Random]) -> Outcome:
                 kw["spill_sz"] = cfg["spill_sz"]
             if cfg["wpc"] != "default":
                 kw["writes_per_chunk"] = cfg["wpc"]
-            S._state.clear()
+            getattr(S, "_state", {}).clear()
             fakes.install_fake_s3(s3)
             fakes.install_distributed_fakes(cluster)
             if sink == "file":
@@ -423,7 +436,7 @@ def execute(record: dict, rng: Optional[random.Random]) -> Outcome:
             fakes.uninstall_distributed_fakes()
             fakes.uninstall_fake_s3()
             _patch_s3_min(None)
-            S._state.clear()
+            getattr(S, "_state", {}).clear()
 
         if v is None:
             if sink == "file":
@@ -585,6 +598,8 @@ def check_file(path: Path, data: np.ndarray, cfg: dict, aff: List[float], crs: s
         probes["side_equals_pow2_levels"] = 1
     if nx < info[0]["tw"] or ny < info[0]["th"]:
         probes["narrower_than_tile"] = 1
+    if -(-H // info[0]["th"]) > -(-ny // info[0]["th"]) or -(-W // info[0]["tw"]) > -(-nx // info[0]["tw"]):
+        probes["padding_adds_whole_tiles"] = 1
     # O5.5 halving
     for li in range(1, len(info)):
         if (info[li]["H"] * 2, info[li]["W"] * 2) != (info[li - 1]["H"], info[li - 1]["W"]):
